@@ -13,8 +13,8 @@ CASE_DEPS = ["theories/CorrServer.vo", "Generated/GenServer.vo"]
 RULE = ("serve: the C09 request-sequence generator biased to multi-unit contexts (hosted sets [1] [1,2] [0] [0,1] "
         "[1,2,247] [17] [247] [2,1,17] [255] [0,247] [1,255] [3,2,1,0] + random ids; healthy / raising datastores), "
         "unit ids {0,1,2,17,247,255} + hosted + random 0..255, all flag combinations, on every front-end x framing "
-        "combination (enumerated).  filter: exhaustive product front-end x hosted set x unit id {0,1,2,9,17,247,255} x "
-        "single x broadcast_enable with one real frame each.  values (python side): final register/coil tables of "
+        "combination (enumerated).  filter: exhaustive product front-end x framing (socket on all seven; RTU, ASCII, "
+        "binary on stream handlers) x hosted set x unit id {0,1,2,9,17,247,255} x single x broadcast_enable with one real frame each.  values (python side): final register/coil tables of "
         "every unit against the tables predicted from the delivered writes.  Non-trivial = at least one request "
         "delivered; distinct = distinct Coq case terms.")
 TRUSTED = c09.TRUSTED
